@@ -1836,6 +1836,24 @@ func (m *Machine) copyOp(dst, src Value) Value {
 				return smt.BVC(64, uint64(sn))
 			}
 		}
+		if dn >= 0 && d.Off == 0 && sok {
+			full := false
+			switch dv := d.Arr.V.(type) {
+			case *OpaqueBytes:
+				full = true
+			case *ArrayV:
+				full = len(dv.E) == dn
+			}
+			// source of unknown or larger length: the destination is filled when len(src) >= len(dst)
+			srcLen := smt.StrLen(stt)
+			if full && (sn < 0 || sn >= dn) {
+				if sn < 0 && !m.branch(smt.IntLe(smt.IntC(int64(dn)), srcLen), nil) {
+					panic(unsupported("copy from a shorter opaque byte sequence of unknown length"))
+				}
+				m.writeBack(d.Arr, &OpaqueBytes{T: smt.StrSubstr(stt, smt.IntC(0), smt.IntC(int64(dn))), N: dn})
+				return smt.BVC(64, uint64(dn))
+			}
+		}
 		panic(unsupported(fmt.Sprintf("copy between opaque byte sequences of different/unknown length (%d -> %d)", sn, dn)))
 	}
 	n := min(d.Len, s.Len)
